@@ -1257,22 +1257,22 @@ def build(tier):
     req_c2s = ["op:" + o for o in NUM1 + NUM2 + ["cpow", "if_else", "if_else_zero", "lt", "le", "eq", "ne", "and", "or", "not"]]
     cells = [
         Cell("s2c/value", dict([("mixed", s2c_case())] + [(o, s2c_case(op=o)) for o in S2C_OPS]), lambda c: check_s2c(c, True),
-             s2c_nontrivial, s2c_classify, quick=700, thorough=20000,
+             s2c_nontrivial, s2c_classify, quick=700, thorough=20000, case_limit=120,
              build=lambda: sym(), shrink=True),
-        Cell("s2c/matrix", s2c_case(matrix=True), lambda c: check_s2c(c, True), s2c_nontrivial, s2c_classify, quick=150, thorough=4000),
+        Cell("s2c/matrix", s2c_case(matrix=True), lambda c: check_s2c(c, True), s2c_nontrivial, s2c_classify, quick=150, thorough=4000, case_limit=120),
         Cell("s2c/raises_or_equal", dict([("mixed", s2c_case(unsupported=True))]
                                          + [(o, s2c_case(unsupported_op=o)) for o in SFUN1 + SFUN2 + ["piecewise", "pi"]]),
              lambda c: check_s2c(c, False),
              lambda c: bool(ops_of(c["tree"]) & {"exp", "abs", "max", "piecewise", "mod", "pi", "log", "sfun"}),
-             s2c_classify, quick=800, thorough=12000),
+             s2c_classify, quick=800, thorough=12000, case_limit=120),
         Cell("s2c/symtab", symtab_case(), check_symtab, lambda c: any(cc["cse"] for cc in c["calls"]),
-             lambda c: ["cse-calls:%d" % sum(1 for cc in c["calls"] if cc["cse"])], quick=250, thorough=6000),
+             lambda c: ["cse-calls:%d" % sum(1 for cc in c["calls"] if cc["cse"])], quick=250, thorough=6000, case_limit=120),
         Cell("c2s/value", dict([("mixed", c2s_case("num"))] + [(o, c2s_case("num", op=o)) for o in C2S_OPS]
                                 + [("sel_sum/%d" % i, c2s_case("num", op="sel_sum")) for i in (2, 3, 4)]
                                 + [("guard/%d" % i, c2s_case("num", op="guard")) for i in (2, 3)]), check_c2s, c2s_nontrivial,
-             c2s_classify, quick=1100, thorough=30000),
-        Cell("c2s/boolean", c2s_case("bool"), check_c2s, c2s_nontrivial, c2s_classify, quick=300, thorough=8000),
-        Cell("c2s/matrix", c2s_case("mat"), check_c2s, c2s_nontrivial, c2s_classify, quick=150, thorough=4000),
+             c2s_classify, quick=1100, thorough=30000, case_limit=120),
+        Cell("c2s/boolean", c2s_case("bool"), check_c2s, c2s_nontrivial, c2s_classify, quick=300, thorough=8000, case_limit=120),
+        Cell("c2s/matrix", c2s_case("mat"), check_c2s, c2s_nontrivial, c2s_classify, quick=150, thorough=4000, case_limit=120),
         Cell("c2s/ties_exhaustive", st.sampled_from(sorted(TIE_OPS)).map(lambda o: {"op": o}), check_ties, lambda c: True,
              lambda c: ["op:" + c["op"]], quick=0, thorough=0, shrink=False, examples=[{"op": o} for o in sorted(TIE_OPS)]),
         atheris_cell("s2c", 20000),
